@@ -19,7 +19,7 @@ func init() {
 		Explain: "Decides (P) that every renderer option reaches every renderer copy: each NodeRenderer type reading html.Config implements SetOptioner, hand-written SetOption methods forward unknown names to the embedded Config, the names written by the options agree with the names read by Config.SetOption and both paths store into the same field, and Render's initialiser pushes every option into every SetOptioner before its functions are registered; (X) every read of Config.XHTML only selects between two constant writes that differ exactly by ' />' versus '>' (or selects an enum constant); (H) Config.HardWraps is read once, only as a branch condition, under no other condition than 'this text node ends in a soft line break', and its true arm is the hard-break arm; (U) Config.Unsafe is only a branch condition in front of raw node bytes or of the dangerous-URL test. Any other use of the three flags fails as undecided. Does NOT decide that the rest of the output is byte-identical (that follows from C06 together with these rules).",
 		Trusted: []string{"sink model (DESIGN 2.5)"},
 		Assumes: []string{"table alignment method and East-Asian line breaks are excluded by the statement itself"},
-		Rules:   []func(*World, *Report){ruleOptionPropagation, ruleOptionValueStored, ruleConfiguredComponentsOwned, ruleFlagUses, ruleRenderersReadPerSegment},
+		Rules:   []func(*World, *Report){ruleOptionPropagation, ruleOptionValueStored, ruleConfiguredComponentsOwned, ruleFlagUses, ruleRenderersReadPerSegment, ruleConstructorsApplyOptions},
 	})
 }
 
